@@ -18,8 +18,9 @@ UNITS = {
     "mapper": {"tpl": "mapper.rs", "props": ["C16"],
                "fn_props": {**PRELUDE_FNS, ".*": ["C16"]}},
     "lexer": {"tpl": "lexer.rs", "props": ["C16", "C09"],
-              "fn_props": {**PRELUDE_FNS, "get_line|get_newline_before|get_err_pos|lemma_.*": ["C16", "C09"], "preprocess|note_cite": ["C16", "C09"]},
-              "assumes": ["unit lexer: precondition `wf` (newline positions strictly increasing, inside the text, text at most isize::MAX bytes) is what LexerHelper::new establishes; `new` itself (char_indices over a &str) is only under the BOUNDED Kani unit b_lexer_new",
+              "fn_props": {**PRELUDE_FNS, "get_line|get_newline_before|get_err_pos|lemma_.*": ["C16", "C09"], "preprocess|note_cite|new_real": ["C16", "C09"]},
+              "assumes": ["unit lexer: ASSUMED contract of std's str::char_indices / str::len (rewrite R16: the k-th item is the byte offset and the value of the k-th character; offsets strictly increasing and inside the text; a text is at most isize::MAX bytes). With it LexerHelper::new is PROVED to build the increasing list of the newline characters' byte offsets (`wf`), for texts of any length and any characters; the bounded Kani unit b_lexer_new runs the real std code on 31 strings incl. multi-byte characters (cross-check of exactly this assumption)",
+                          "unit lexer: preprocess(): the assembler, its context / output constructors and LexerHelper::new are stubs recording the refused token's start and the helper's newline list in a ghost trace (the stub of `new` carries the contract proved of the real one); assumed: LALRPOP reports positions as offsets into the text it was given; message text opaque (R3), source slice unchecked (R9)",
                           "unit lexer: rewrite R13 (`for (i, v) in <place>.iter().enumerate()` -> index loop; <place> is borrowed immutably by the original loop)"]},
     "numbers": {"tpl": "numbers.rs", "props": ["C14", "C09", "C12", "C17", "C01", "C05", "C11"],
                 "fn_props": {**PRELUDE_FNS, "nm_pp_.*": ["C14", "C09"], "nm_it_.*": ["C01", "C05", "C09"], "nm_ld_.*": ["C12", "C09"], "nm_pr_.*": ["C17", "C09"]},
